@@ -83,7 +83,7 @@ theorem Seg.appendBatch_inv {cfg : Cfg} {now : Nat} (h : s.Inv cfg) (hopen : s.c
     (hold : ∀ m ∈ s.msgs, m.ts ≤ now) (hnew : ∀ m ∈ msgs, m.ts = now) :
     (s.appendBatch (sumSizes msgs) msgs).Inv cfg := by
   have hl : msgs.getLast? = some (msgs.getLast hne) := List.getLast?_eq_some_getLast hne
-  have hoffs : consecutiveFrom s.start (s.msgs ++ msgs) := consecutiveFrom_append.2 ⟨h.offsets, hc⟩
+  have hoffs : consecutiveFrom s.start (s.msgs ++ msgs) := consecutiveFrom_append_iff.2 ⟨h.offsets, hc⟩
   have hlast := hc.getLast hl
   have hlen : 0 < msgs.length := List.length_pos_iff.2 hne
   refine
